@@ -66,7 +66,7 @@ func VerifC06ReplayTG() {
 	rt.Opt("clock", 1)
 	root := rt.TempDir()
 	defer rt.Cleanup()
-	lo, hi := int64(7), int64(22)
+	lo, hi := int64(8), int64(22)
 	if rt.Tier() == 1 {
 		hi = 34
 	}
